@@ -27,8 +27,7 @@ theorem applyOne_fields (s : S) (k : Nat) :
     (applyOne s k).phase = s.phase ∧ (applyOne s k).reg = s.reg ∧ (applyOne s k).clone = s.clone ∧
     (applyOne s k).cancelled = s.cancelled ∧ (applyOne s k).tripped = s.tripped ∧
     (applyOne s k).snap = s.snap ∧ (applyOne s k).pending = s.pending ∧ (applyOne s k).held = s.held ∧
-    (applyOne s k).nextSid = s.nextSid ∧ (applyOne s k).missed = s.missed ∧
-    (applyOne s k).forGood = s.forGood := by
+    (applyOne s k).nextSid = s.nextSid ∧ (applyOne s k).missed = s.missed := by
   simp only [applyOne]; split <;> simp
 
 theorem applyAll_fields (s : S) (ks : List Nat) :
@@ -37,8 +36,7 @@ theorem applyAll_fields (s : S) (ks : List Nat) :
     (applyAll s ks).phase = s.phase ∧ (applyAll s ks).reg = s.reg ∧ (applyAll s ks).clone = s.clone ∧
     (applyAll s ks).cancelled = s.cancelled ∧ (applyAll s ks).tripped = s.tripped ∧
     (applyAll s ks).snap = s.snap ∧ (applyAll s ks).pending = s.pending ∧ (applyAll s ks).held = s.held ∧
-    (applyAll s ks).nextSid = s.nextSid ∧ (applyAll s ks).missed = s.missed ∧
-    (applyAll s ks).forGood = s.forGood := by
+    (applyAll s ks).nextSid = s.nextSid ∧ (applyAll s ks).missed = s.missed := by
   induction ks generalizing s with
   | nil => simp [applyAll]
   | cons k r ih =>
@@ -102,8 +100,7 @@ theorem flush_fields (s : S) :
     s.flush.cancelled = s.cancelled ∧ s.flush.tripped = s.tripped ∧ s.flush.snap = s.snap ∧
     s.flush.held = s.held ∧ s.flush.nextSid = s.nextSid ∧ s.flush.missed = s.missed ∧
     s.flush.pending = [] ∧ s.flush.applied = s.applied + s.pending.length ∧
-    s.flush.log = (applyAll s s.pending).log ∧ s.flush.rows = (applyAll s s.pending).rows ∧
-    s.flush.forGood = s.forGood := by
+    s.flush.log = (applyAll s s.pending).log ∧ s.flush.rows = (applyAll s s.pending).rows := by
   have h := applyAll_fields s s.pending
   simp only [S.flush]
   grind
@@ -112,7 +109,7 @@ theorem flush_fields (s : S) :
 
 structure WF (s : S) : Prop where
   phase_up      : s.phase ≠ .gone → s.up = true ∧ s.dir = true
-  reg_alive     : s.reg = true → s.up = true ∧ s.phase ≠ .gone ∧ s.cancelled = false ∧ s.clone = false ∧ s.forGood = false
+  reg_alive     : s.reg = true → s.up = true ∧ s.phase ≠ .gone ∧ s.cancelled = false ∧ s.clone = false
   init_state    : s.phase = .init → s.state = some .created
   loop_state    : s.phase = .loop → s.state = some .running
   drain_state   : s.phase = .drain → s.state = some .running ∨ s.state = some .cancelled
@@ -123,7 +120,6 @@ structure WF (s : S) : Prop where
   pending_alive : s.pending ≠ [] → s.phase ≠ .gone
   nodir         : s.dir = false → s.state = none
   ids           : Consecutive s.log
-  for_good      : s.forGood = true → s.up = true ∧ s.state = some .cancelled ∧ s.phase ≠ .loop ∧ s.phase ≠ .init
   drain_reg     : s.phase = .drain → s.reg = true → s.tripped = true
   sid_lt        : s.sid < s.nextSid
 
@@ -131,13 +127,13 @@ theorem init_wf : WF init := by
   constructor <;> simp [init, Consecutive]
 
 theorem WF.flush {s : S} (h : WF s) : WF s.flush := by
-  obtain ⟨h1, h2, h3, h4, h5, h6, h7, h8, h9, h10, h11, h12, h13, h14, h15⟩ := h
-  obtain ⟨_, e_dir, e_sid, e_state, e_up, e_phase, e_reg, e_clone, e_canc, e_trip, _, e_held, e_next, _, e_pend, _, e_log, _, e_fg⟩ :=
+  obtain ⟨h1, h2, h3, h4, h5, h6, h7, h8, h9, h10, h11, h12, h14, h15⟩ := h
+  obtain ⟨_, e_dir, e_sid, e_state, e_up, e_phase, e_reg, e_clone, e_canc, e_trip, _, e_held, e_next, _, e_pend, _, e_log, _⟩ :=
     flush_fields s
   have hc := applyAll_consecutive s s.pending h12
   constructor
   · rw [e_phase, e_up, e_dir]; exact h1
-  · rw [e_reg, e_up, e_phase, e_canc, e_clone, e_fg]; exact h2
+  · rw [e_reg, e_up, e_phase, e_canc, e_clone]; exact h2
   · rw [e_phase, e_state]; exact h3
   · rw [e_phase, e_state]; exact h4
   · rw [e_phase, e_state]; exact h5
@@ -148,7 +144,6 @@ theorem WF.flush {s : S} (h : WF s) : WF s.flush := by
   · rw [e_pend]; intro h; exact absurd rfl h
   · rw [e_dir, e_state]; exact h11
   · rw [e_log]; exact hc
-  · rw [e_fg, e_up, e_state, e_phase]; exact h13
   · rw [e_phase, e_reg, e_trip]; exact h14
   · rw [e_sid, e_next]; exact h15
 
@@ -156,28 +151,28 @@ macro "wf_case" : tactic =>
   `(tactic| (constructor <;> simp_all <;> grind))
 
 theorem step_wf_mkdir {s s' : S} (h : WF s) (hs : step s .mkdir = some s') : WF s' := by
-  obtain ⟨h1, h2, h3, h4, h5, h6, h7, h8, h9, h10, h11, h12, h13, h14, h15⟩ := h
+  obtain ⟨h1, h2, h3, h4, h5, h6, h7, h8, h9, h10, h11, h12, h14, h15⟩ := h
   simp only [step] at hs
   split at hs <;> simp at hs
   subst hs
   constructor <;> simp_all [Consecutive] <;> grind
 
 theorem step_wf_create {s s' : S} (h : WF s) (hs : step s .create = some s') : WF s' := by
-  obtain ⟨h1, h2, h3, h4, h5, h6, h7, h8, h9, h10, h11, h12, h13, h14, h15⟩ := h
+  obtain ⟨h1, h2, h3, h4, h5, h6, h7, h8, h9, h10, h11, h12, h14, h15⟩ := h
   simp only [step] at hs
   split at hs <;> simp at hs
   subst hs
   wf_case
 
 theorem step_wf_initialDone {s s' : S} (h : WF s) (hs : step s .initialDone = some s') : WF s' := by
-  obtain ⟨h1, h2, h3, h4, h5, h6, h7, h8, h9, h10, h11, h12, h13, h14, h15⟩ := h
+  obtain ⟨h1, h2, h3, h4, h5, h6, h7, h8, h9, h10, h11, h12, h14, h15⟩ := h
   simp only [step] at hs
   split at hs <;> simp at hs
   subst hs
   wf_case
 
 theorem step_wf_write {s s' : S} {tx : Tx} (h : WF s) (hs : step s (.write tx) = some s') : WF s' := by
-  obtain ⟨h1, h2, h3, h4, h5, h6, h7, h8, h9, h10, h11, h12, h13, h14, h15⟩ := h
+  obtain ⟨h1, h2, h3, h4, h5, h6, h7, h8, h9, h10, h11, h12, h14, h15⟩ := h
   simp only [step] at hs
   split at hs
   · split at hs
@@ -186,14 +181,14 @@ theorem step_wf_write {s s' : S} {tx : Tx} (h : WF s) (hs : step s (.write tx) =
   · simp at hs
 
 theorem step_wf_writeHeld {s s' : S} {tx : Tx} (h : WF s) (hs : step s (.writeHeld tx) = some s') : WF s' := by
-  obtain ⟨h1, h2, h3, h4, h5, h6, h7, h8, h9, h10, h11, h12, h13, h14, h15⟩ := h
+  obtain ⟨h1, h2, h3, h4, h5, h6, h7, h8, h9, h10, h11, h12, h14, h15⟩ := h
   simp only [step] at hs
   split at hs <;> simp at hs
   subst hs
   constructor <;> simp_all
 
 theorem step_wf_matchHeld {s s' : S} (h : WF s) (hs : step s .matchHeld = some s') : WF s' := by
-  obtain ⟨h1, h2, h3, h4, h5, h6, h7, h8, h9, h10, h11, h12, h13, h14, h15⟩ := h
+  obtain ⟨h1, h2, h3, h4, h5, h6, h7, h8, h9, h10, h11, h12, h14, h15⟩ := h
   simp only [step] at hs
   split at hs
   · split at hs
@@ -208,34 +203,32 @@ theorem step_wf_process {s s' : S} (h : WF s) (hs : step s .process = some s') :
   exact h.flush
 
 theorem step_wf_unreg {s s' : S} {keep : Bool} (h : WF s) (hs : step s (.unreg keep) = some s') : WF s' := by
-  obtain ⟨h1, h2, h3, h4, h5, h6, h7, h8, h9, h10, h11, h12, h13, h14, h15⟩ := h
+  obtain ⟨h1, h2, h3, h4, h5, h6, h7, h8, h9, h10, h11, h12, h14, h15⟩ := h
   simp only [step] at hs
   split at hs <;> simp at hs
   subst hs
   wf_case
 
 theorem step_wf_dropClone {s s' : S} (h : WF s) (hs : step s .dropClone = some s') : WF s' := by
-  obtain ⟨h1, h2, h3, h4, h5, h6, h7, h8, h9, h10, h11, h12, h13, h14, h15⟩ := h
+  obtain ⟨h1, h2, h3, h4, h5, h6, h7, h8, h9, h10, h11, h12, h14, h15⟩ := h
   simp only [step] at hs
   split at hs <;> simp at hs
   subst hs
   constructor <;> simp_all
 
 theorem step_wf_trip {s s' : S} (h : WF s) (hs : step s .trip = some s') : WF s' := by
-  obtain ⟨h1, h2, h3, h4, h5, h6, h7, h8, h9, h10, h11, h12, h13, h14, h15⟩ := h
+  obtain ⟨h1, h2, h3, h4, h5, h6, h7, h8, h9, h10, h11, h12, h14, h15⟩ := h
   simp only [step] at hs
   split at hs <;> simp at hs
   subst hs
   constructor <;> simp_all
 
 theorem step_wf_ack {s s' : S} (h : WF s) (hs : step s .ack = some s') : WF s' := by
-  obtain ⟨h1, h2, h3, h4, h5, h6, h7, h8, h9, h10, h11, h12, h13, h14, h15⟩ := h
+  obtain ⟨h1, h2, h3, h4, h5, h6, h7, h8, h9, h10, h11, h12, h14, h15⟩ := h
   simp only [step] at hs
-  split at hs
-  · by_cases hx : ackUnsub s = true
-    · simp [hx] at hs; subst hs; simp only [ackUnsub] at hx; wf_case
-    · simp [hx] at hs; subst hs; simp only [ackUnsub] at hx; wf_case
-  · simp at hs
+  split at hs <;> simp at hs
+  subst hs
+  cases hcz : s.cancelled <;> (constructor <;> simp_all <;> grind)
 
 theorem step_wf_drainEnd {s s' : S} (h : WF s) (hs : step s .drainEnd = some s') : WF s' := by
   simp only [step] at hs
@@ -243,18 +236,18 @@ theorem step_wf_drainEnd {s s' : S} (h : WF s) (hs : step s .drainEnd = some s')
   subst hs
   rename_i hp
   have hfl := flush_fields s
-  obtain ⟨h1, h2, h3, h4, h5, h6, h7, h8, h9, h10, h11, h12, h13, h14, h15⟩ := h.flush
-  cases hfg : s.forGood <;> (constructor <;> simp_all)
+  obtain ⟨h1, h2, h3, h4, h5, h6, h7, h8, h9, h10, h11, h12, h14, h15⟩ := h.flush
+  constructor <;> simp_all
 
 theorem step_wf_stop {s s' : S} (h : WF s) (hs : step s .stop = some s') : WF s' := by
-  obtain ⟨h1, h2, h3, h4, h5, h6, h7, h8, h9, h10, h11, h12, h13, h14, h15⟩ := h
+  obtain ⟨h1, h2, h3, h4, h5, h6, h7, h8, h9, h10, h11, h12, h14, h15⟩ := h
   simp only [step] at hs
   split at hs <;> simp at hs
   subst hs
   constructor <;> simp_all
 
 theorem step_wf_restart {s s' : S} (h : WF s) (hs : step s .restart = some s') : WF s' := by
-  obtain ⟨h1, h2, h3, h4, h5, h6, h7, h8, h9, h10, h11, h12, h13, h14, h15⟩ := h
+  obtain ⟨h1, h2, h3, h4, h5, h6, h7, h8, h9, h10, h11, h12, h14, h15⟩ := h
   simp only [step] at hs
   split at hs
   · split at hs
@@ -305,7 +298,7 @@ theorem init_fresh : Fresh init := by
   intro _ h; simp [init, S.onDisk] at h
 
 theorem step_fresh {s s' : S} {o : Op} (hw : WF s) (hf : Fresh s) (hs : step s o = some s') : Fresh s' := by
-  obtain ⟨h1, h2, h3, h4, h5, h6, h7, h8, h9, h10, h11, _, h13, _, _⟩ := hw
+  obtain ⟨h1, h2, h3, h4, h5, h6, h7, h8, h9, h10, h11, _, _, _⟩ := hw
   cases o with
   | mkdir =>
     simp only [step] at hs
@@ -371,7 +364,7 @@ theorem step_fresh {s s' : S} {o : Op} (hw : WF s) (hf : Fresh s) (hs : step s o
     intro hm hd hu k _ hk2
     have hph : s.phase = .loop := by simp_all
     have hrow : s.flush.rows k = if k ∈ s.pending then s.db k else s.rows k := by
-      rw [hfl.2.2.2.2.2.2.2.2.2.2.2.2.2.2.2.2.2.1]; exact applyAll_rows s s.pending k
+      rw [hfl.2.2.2.2.2.2.2.2.2.2.2.2.2.2.2.2.2]; exact applyAll_rows s s.pending k
     have hph' : s.flush.phase = .loop := by rw [hfl.2.2.2.2.2.1]; exact hph
     simp only [hph', hrow, hfl.1]
     by_cases hk : k ∈ s.pending
@@ -399,16 +392,14 @@ theorem step_fresh {s s' : S} {o : Op} (hw : WF s) (hf : Fresh s) (hs : step s o
     exact hf hm (by simp_all [S.onDisk]) (by simp_all) k hk1 hk2
   | ack =>
     simp only [step] at hs
-    split at hs
-    · rename_i hp
-      have hph : s.phase = .loop := by simp_all
-      have hst := h4 hph
-      by_cases hx : ackUnsub s = true <;>
-        (simp [hx] at hs; subst hs
-         intro hm hd hu k hk1 hk2
-         have := hf hm (by simp_all [S.onDisk]) (Or.inl (h1 (by simp [hph])).1) k hk1 hk2
-         simp_all)
-    · simp at hs
+    split at hs <;> simp at hs
+    subst hs
+    rename_i hp
+    intro hm hd hu k hk1 hk2
+    have hph : s.phase = .loop := by simp_all
+    have hst := h4 hph
+    have := hf hm (by simp_all [S.onDisk]) (Or.inl (h1 (by simp [hph])).1) k hk1 hk2
+    simp_all
   | drainEnd =>
     simp only [step] at hs
     split at hs <;> simp at hs
@@ -418,7 +409,7 @@ theorem step_fresh {s s' : S} {o : Op} (hw : WF s) (hf : Fresh s) (hs : step s o
     intro hm hd hu k _ hk2
     have hph : s.phase = .drain := by simp_all
     have hrow : s.flush.rows k = if k ∈ s.pending then s.db k else s.rows k := by
-      rw [hfl.2.2.2.2.2.2.2.2.2.2.2.2.2.2.2.2.2.1]; exact applyAll_rows s s.pending k
+      rw [hfl.2.2.2.2.2.2.2.2.2.2.2.2.2.2.2.2.2]; exact applyAll_rows s s.pending k
     simp only [hrow, hfl.1]
     by_cases hk : k ∈ s.pending
     · simp [hk]
@@ -483,17 +474,17 @@ a registered subscription ends up in its drain, still registered -/
 theorem to_drain {s : S} (hw : WF s) (hs : s.served = true) :
     let d := run s [.trip, .initialDone, .ack]
     d.phase = .drain ∧ d.up = true ∧ d.reg = true ∧ d.clone = false ∧ d.dir = true ∧ d.sid = s.sid ∧
-    d.db = s.db ∧ d.missed = s.missed ∧ d.held = s.held ∧ d.forGood = false := by
-  obtain ⟨h1, h2, h3, h4, h5, h6, h7, h8, h9, h10, h11, h12, h13, h14, h15⟩ := hw
+    d.db = s.db ∧ d.missed = s.missed ∧ d.held = s.held := by
+  obtain ⟨h1, h2, h3, h4, h5, h6, h7, h8, h9, h10, h11, h12, h14, h15⟩ := hw
   simp only [S.served, Bool.and_eq_true] at hs
   obtain ⟨hup, hreg⟩ := hs
-  obtain ⟨_, hph, hc, hcl, hfg⟩ := h2 hreg
+  obtain ⟨_, hph, hc, hcl⟩ := h2 hreg
   have hd := (h1 hph).2
   cases hp : s.phase with
   | gone => exact absurd hp hph
-  | init => cases ht : s.tripped <;> simp [run, stepD, step, ackUnsub, hp, ht, hup, hreg, hc, hcl, hd, hfg]
-  | loop => cases ht : s.tripped <;> simp [run, stepD, step, ackUnsub, hp, ht, hup, hreg, hc, hcl, hd, hfg]
-  | drain => cases ht : s.tripped <;> simp [run, stepD, step, hp, ht, hup, hreg, hc, hcl, hd, hfg]
+  | init => cases ht : s.tripped <;> simp [run, stepD, step, hp, ht, hup, hreg, hc, hcl, hd]
+  | loop => cases ht : s.tripped <;> simp [run, stepD, step, hp, ht, hup, hreg, hc, hcl, hd]
+  | drain => cases ht : s.tripped <;> simp [run, stepD, step, hp, ht, hup, hreg, hc, hcl, hd]
 
 /-- applying candidates only looks at the rows, the table and the log -/
 theorem applyOne_congr (s t : S) (k : Nat) (h1 : s.rows = t.rows) (h2 : s.db = t.db) (h3 : s.log = t.log) :
@@ -516,16 +507,15 @@ def unregd (d : S) : S := { d with reg := false, cancelled := true, clone := fal
 
 /-- `drop_handles()`, the other clones go away, the drain ends: everything accepted is applied and
 `completed` is written -/
-theorem drain_to_completed {d : S} (hp : d.phase = .drain) (hup : d.up = true) (hreg : d.reg = true)
-    (hfg : d.forGood = false) :
+theorem drain_to_completed {d : S} (hp : d.phase = .drain) (hup : d.up = true) (hreg : d.reg = true) :
     let c := run d [.unreg false, .dropClone, .initialDone, .ack, .drainEnd]
     c.state = some .completed ∧ c.phase = .gone ∧ c.up = true ∧ c.reg = false ∧ c.pending = [] ∧
     c.dir = d.dir ∧ c.sid = d.sid ∧ c.db = d.db ∧ c.missed = d.missed ∧ c.held = d.held ∧
     c.applied = d.produced ∧ c.log = (applyAll d d.pending).log ∧ c.rows = (applyAll d d.pending).rows := by
   have key : run d [.unreg false, .dropClone, .initialDone, .ack, .drainEnd]
       = { (unregd d).flush with state := some .completed, phase := .gone } := by
-    simp [run, stepD, step, unregd, hp, hup, hreg, hfg]
-  obtain ⟨e_db, e_dir, e_sid, _, e_up, _, e_reg, _, _, _, _, e_held, _, e_missed, e_pend, e_app, e_log, e_rows, _⟩ :=
+    simp [run, stepD, step, unregd, hp, hup, hreg]
+  obtain ⟨e_db, e_dir, e_sid, _, e_up, _, e_reg, _, _, _, _, e_held, _, e_missed, e_pend, e_app, e_log, e_rows⟩ :=
     flush_fields (unregd d)
   obtain ⟨l1, l2⟩ := applyAll_congr (unregd d) d d.pending rfl rfl rfl
   have hpend : (unregd d).pending = d.pending := rfl
@@ -554,97 +544,6 @@ theorem completed_restart {c : S} (hst : c.state = some .completed) (hup : c.up 
     r.missed = (if !c.held.isEmpty then c.missed + 1 else c.missed) := by
   simp [run, stepD, step, hst, hup, hd, S.served, S.onDisk]
 
-/-! ### an unsubscribed subscription stays dead -/
-
-/-- the subscription with id `x` can never be served again: its directory is gone, or belongs to a
-later subscription, or is marked `cancelled` with no matcher and no handle -/
-def Dead (x : Nat) (s : S) : Prop :=
-  x < s.nextSid ∧
-  (s.dir = false ∨ s.sid ≠ x ∨ (s.state = some .cancelled ∧ s.phase = .gone ∧ s.reg = false))
-
-theorem step_dead {x : Nat} {s s' : S} {o : Op} (hd : Dead x s) (hs : step s o = some s') : Dead x s' := by
-  obtain ⟨hx, hd⟩ := hd
-  cases o <;> simp only [step] at hs
-  case process =>
-    split at hs <;> simp at hs
-    subst hs
-    have hf := flush_fields s
-    refine ⟨by rw [hf.2.2.2.2.2.2.2.2.2.2.2.2.1]; exact hx, ?_⟩
-    rw [hf.2.1, hf.2.2.1, hf.2.2.2.1, hf.2.2.2.2.2.1, hf.2.2.2.2.2.2.1]
-    rename_i hp
-    rcases hd with h | h | h
-    · exact Or.inl h
-    · exact Or.inr (Or.inl h)
-    · simp_all
-  case drainEnd =>
-    split at hs <;> simp at hs
-    subst hs
-    have hf := flush_fields s
-    refine ⟨by show s.flush.nextSid > x; rw [hf.2.2.2.2.2.2.2.2.2.2.2.2.1]; exact hx, ?_⟩
-    show s.flush.dir = false ∨ s.flush.sid ≠ x ∨ _
-    rw [hf.2.1, hf.2.2.1]
-    rename_i hp
-    rcases hd with h | h | h
-    · exact Or.inl h
-    · exact Or.inr (Or.inl h)
-    · simp_all
-  all_goals
-    (repeat' split at hs) <;> simp at hs <;> subst hs <;>
-      (refine ⟨by simp; omega, ?_⟩; rcases hd with h | h | h <;> simp_all <;> omega)
-
-theorem run_dead {x : Nat} {s : S} (l : List Op) (hd : Dead x s) : Dead x (run s l) := by
-  induction l generalizing s with
-  | nil => simpa [run] using hd
-  | cons o r ih =>
-    simp only [run, List.foldl_cons] at ih ⊢
-    apply ih
-    unfold stepD
-    cases hs : step s o with
-    | none => simpa using hd
-    | some s' => simpa using step_dead hd hs
-
-/-- the matcher has taken the cancellation branch (with the rows it had: its own or the initial
-query's) and waits in its drain -/
-def cancelledDrain (s : S) (rows : Tbl) : S :=
-  { s with rows := rows, state := some .cancelled, phase := .drain, reg := false, cancelled := true,
-           clone := false, forGood := true }
-
-/-- the tail of `process_sub_channel` (remove from the manager, cancel) on a served subscription
-of a node that is not shutting down, and the matcher winding down: marked `cancelled` for good -/
-theorem unsub_dead {s : S} (hw : WF s) (hs : s.served = true) (ht : s.tripped = false) :
-    let u := run s [.unreg false, .initialDone, .ack, .drainEnd]
-    u.state = some .cancelled ∧ u.dir = true ∧ u.sid = s.sid ∧ u.up = true ∧ Dead s.sid u := by
-  obtain ⟨h1, h2, h3, h4, h5, h6, h7, h8, h9, h10, h11, h12, h13, h14, h15⟩ := hw
-  simp only [S.served, Bool.and_eq_true] at hs
-  obtain ⟨hup, hreg⟩ := hs
-  obtain ⟨_, hph, hc, hcl, hfg⟩ := h2 hreg
-  have hd := (h1 hph).2
-  have main : ∀ rows, let u : S := { (cancelledDrain s rows).flush with state := some .cancelled, phase := .gone }
-      u.state = some .cancelled ∧ u.dir = true ∧ u.sid = s.sid ∧ u.up = true ∧ Dead s.sid u := by
-    intro rows
-    obtain ⟨_, e_dir, e_sid, _, e_up, _, e_reg, _, _, _, _, _, e_next, _, _, _, _, _, _⟩ :=
-      flush_fields (cancelledDrain s rows)
-    refine ⟨rfl, ?_, ?_, ?_, ?_, ?_⟩
-    · show (cancelledDrain s rows).flush.dir = true; rw [e_dir]; exact hd
-    · show (cancelledDrain s rows).flush.sid = s.sid; rw [e_sid]; rfl
-    · show (cancelledDrain s rows).flush.up = true; rw [e_up]; exact hup
-    · show s.sid < (cancelledDrain s rows).flush.nextSid; rw [e_next]; exact h15
-    · refine Or.inr (Or.inr ⟨rfl, rfl, ?_⟩)
-      show (cancelledDrain s rows).flush.reg = false; rw [e_reg]; rfl
-  cases hp : s.phase with
-  | gone => exact absurd hp hph
-  | drain => have := h14 hp hreg; simp [ht] at this
-  | init =>
-    have key : run s [.unreg false, .initialDone, .ack, .drainEnd]
-        = { (cancelledDrain s s.snap).flush with state := some .cancelled, phase := .gone } := by
-      simp [run, stepD, step, ackUnsub, cancelledDrain, hp, hup, hreg, ht]
-    rw [key]; exact main s.snap
-  | loop =>
-    have key : run s [.unreg false, .initialDone, .ack, .drainEnd]
-        = { (cancelledDrain s s.rows).flush with state := some .cancelled, phase := .gone } := by
-      simp [run, stepD, step, ackUnsub, cancelledDrain, hp, hup, hreg, ht]
-    rw [key]; exact main s.rows
-
 /-! ### the stop sequence with `drop_handles()` overtaking the matcher -/
 
 /-- the matcher in its drain after a shutdown in which the cancellation reached it first -/
@@ -654,22 +553,21 @@ def overtaken (s : S) (rows : Tbl) (st : Option Status) : S :=
 
 /-- trip, `drop_handles()` BEFORE the matcher has looked at the tripwire (it is in its initial
 query, or was not polled), then the matcher leaves its loop through the cancellation branch — which
-since fix c37e976 is not an unsubscription while the node is shutting down — and the drain ends:
-`completed` -/
+writes `cancelled` — and the drain ends: `cancelled` is overwritten by `completed` -/
 theorem overtaken_to_completed {s : S} (hw : WF s) (hs : s.served = true) :
     let c := run s [.trip, .unreg false, .dropClone, .initialDone, .ack, .drainEnd]
     c.state = some .completed ∧ c.up = true ∧ c.pending = [] ∧ c.dir = true ∧ c.sid = s.sid ∧
     c.db = s.db ∧ c.missed = s.missed ∧ c.held = s.held := by
-  obtain ⟨h1, h2, h3, h4, h5, h6, h7, h8, h9, h10, h11, h12, h13, h14, h15⟩ := hw
+  obtain ⟨h1, h2, h3, h4, h5, h6, h7, h8, h9, h10, h11, h12, h14, h15⟩ := hw
   simp only [S.served, Bool.and_eq_true] at hs
   obtain ⟨hup, hreg⟩ := hs
-  obtain ⟨_, hph, hc, hcl, hfg⟩ := h2 hreg
+  obtain ⟨_, hph, hc, hcl⟩ := h2 hreg
   have hd := (h1 hph).2
   have main : ∀ rows st, let c : S := { (overtaken s rows st).flush with state := some .completed, phase := .gone }
       c.state = some .completed ∧ c.up = true ∧ c.pending = [] ∧ c.dir = true ∧ c.sid = s.sid ∧
       c.db = s.db ∧ c.missed = s.missed ∧ c.held = s.held := by
     intro rows st
-    obtain ⟨e_db, e_dir, e_sid, _, e_up, _, _, _, _, _, _, e_held, _, e_missed, e_pend, _, _, _, _⟩ :=
+    obtain ⟨e_db, e_dir, e_sid, _, e_up, _, _, _, _, _, _, e_held, _, e_missed, e_pend, _, _, _⟩ :=
       flush_fields (overtaken s rows st)
     refine ⟨rfl, ?_, e_pend, ?_, ?_, ?_, ?_, ?_⟩
     · show (overtaken s rows st).flush.up = true; rw [e_up]; exact hup
@@ -682,19 +580,19 @@ theorem overtaken_to_completed {s : S} (hw : WF s) (hs : s.served = true) :
   | gone => exact absurd hp hph
   | init =>
     have key : run s [.trip, .unreg false, .dropClone, .initialDone, .ack, .drainEnd]
-        = { (overtaken s s.snap (some .running)).flush with state := some .completed, phase := .gone } := by
-      cases ht : s.tripped <;> simp [run, stepD, step, ackUnsub, overtaken, hp, hup, hreg, hfg, ht]
+        = { (overtaken s s.snap (some .cancelled)).flush with state := some .completed, phase := .gone } := by
+      cases ht : s.tripped <;> simp [run, stepD, step, overtaken, hp, hup, hreg, ht]
     rw [key]; exact main _ _
   | loop =>
     have key : run s [.trip, .unreg false, .dropClone, .initialDone, .ack, .drainEnd]
-        = { (overtaken s s.rows s.state).flush with state := some .completed, phase := .gone } := by
-      cases ht : s.tripped <;> simp [run, stepD, step, ackUnsub, overtaken, hp, hup, hreg, hfg, ht]
+        = { (overtaken s s.rows (some .cancelled)).flush with state := some .completed, phase := .gone } := by
+      cases ht : s.tripped <;> simp [run, stepD, step, overtaken, hp, hup, hreg, ht]
     rw [key]; exact main _ _
   | drain =>
     have ht := h14 hp hreg
     have key : run s [.trip, .unreg false, .dropClone, .initialDone, .ack, .drainEnd]
         = { (overtaken s s.rows s.state).flush with state := some .completed, phase := .gone } := by
-      simp [run, stepD, step, overtaken, hp, hup, hreg, hfg, ht]
+      simp [run, stepD, step, overtaken, hp, hup, hreg, ht]
     rw [key]; exact main _ _
 
 end Corro.SubLife
